@@ -187,6 +187,13 @@ def cfg_of(rng):
     return rng.choice([dict(fmt="ascii"), dict(fmt="binary"), dict(fmt="appended-raw", compressor="zlib"), dict(fmt="appended-base64")])
 
 
+def shifted(whole, rng_state):
+    """the same grid with index ranges that do not start at zero (a sub-extent of a larger data set, e.g. a slice k = 3..3):
+    only the differences of an extent's bounds count"""
+    o = rng_state.get("index_offsets") or [0, 0, 0]
+    return [whole[0] + o[0], whole[1] + o[0], whole[2] + o[1], whole[3] + o[1], whole[4] + o[2], whole[5] + o[2]]
+
+
 def write_rep(rep, c, d, rng_state):
     """write representation `rep` of grid c into directory d; returns the path.  rng_state: dict of choices (JSON-able)"""
     e = c["ext"]
@@ -209,10 +216,10 @@ def write_rep(rep, c, d, rng_state):
         types = ["Float64"] * 3
         if rng_state.get("int_x") and all(float(x).is_integer() for x in ords[0]):
             types[0] = "Int64"
-        V.write_vtr(path, whole, ords, pf, cf, cfg, coord_type=types)
+        V.write_vtr(path, shifted(whole, rng_state), ords, pf, cf, cfg, coord_type=types)
     elif rep == "vts":
         path = os.path.join(d, "g.vts")
-        V.write_vts(path, whole, [[x / Q for x in p] for p in P], pf, cf, cfg)
+        V.write_vts(path, shifted(whole, rng_state), [[x / Q for x in p] for p in P], pf, cf, cfg)
     elif rep in ("vtu-pixel", "vtu-quad"):
         path = os.path.join(d, f"g_{rep}.vtu")
         cells = truth_cells(c)
@@ -593,6 +600,19 @@ def run_grid(ctx, c, idx, choices):
             ctx.violation("E4", f"MeshFieldsComparator({a}, {b}) of the same grid does not pass: "
                           + (r.get("error", "")[:60] or ("domain" if not r["domain"] else "point fields " + ",".join(r["failed_point_fields"]))),
                           {"stream": "grid", "grid": c, "pair": [a, b], "choices": choices}, result=r)
+    # the data sets read from the files still are the grid after they have been compared with one another (a comparison that
+    # rearranges what it was given would leave cells that no longer connect the points in a valid order)
+    for rep in names:
+        with warnings.catch_warnings():
+            warnings.simplefilter("ignore")
+            try:
+                df = diff_to_truth(truth, extract(objs[rep], c))
+            except Exception as e:  # noqa: BLE001
+                df = {"error": f"{type(e).__name__}: {e}"}
+        ctx.tie("T2 data read from a file = ground truth, again after the comparisons")
+        if df is not None:
+            ctx.violation("E4", f"{rep}: after comparing it with the other representations the data set no longer is the ground-truth "
+                                "grid: " + ", ".join(sorted(df)), {"stream": "grid", "grid": c, "rep": rep, "choices": choices}, difference=df)
     shutil.rmtree(d, ignore_errors=True)
 
 
@@ -784,7 +804,8 @@ def _run(ctx):
         if rng.random() < 0.6:
             rng.shuffle(pperm)
             rng.shuffle(cperm)
-        choices = {"cfg": cfg_of(rng), "pperm": pperm, "cperm": cperm, "mio_binary": rng.random() < 0.7, "swap": rng.random() < 0.5, "int_x": rng.random() < 0.5}
+        choices = {"cfg": cfg_of(rng), "pperm": pperm, "cperm": cperm, "mio_binary": rng.random() < 0.7, "swap": rng.random() < 0.5, "int_x": rng.random() < 0.5,
+                   "index_offsets": [rng.randint(0, 3) for _ in range(3)] if rng.random() < 0.4 else None}
         grids.append((c, choices))
     # ---- model ties on the mesh classes
     gexprs, pexprs, pidx = [], [], []
